@@ -148,9 +148,19 @@ def attach_list(cells):
     return out
 
 
+KANI_FEATURES = "formatting_options"
+
+
 def attach_modules(src, files, cfg="kani"):
     """Append `#[cfg(..)] #[path] mod verif_harness_<stem>;` to each module file."""
     done = set()
+    lib = src / "src" / "lib.rs"
+    if cfg == "kani" and lib.exists():
+        # unstable std constructors some harnesses need (Formatter::new); active only under cfg(kani)
+        text = lib.read_text()
+        tag = f"#![cfg_attr(kani, feature({KANI_FEATURES}))]\n"
+        if not text.startswith(tag):
+            lib.write_text(tag + text)
     for hf, attach in files:
         if (hf, attach) in done:
             continue
